@@ -11,6 +11,7 @@
 //! log and checks L1 (exact register model for `default()`) inline.
 
 use std::cell::{Cell, RefCell};
+use std::rc::Rc;
 use std::collections::BTreeMap;
 use std::panic::{catch_unwind, resume_unwind, AssertUnwindSafe};
 use std::sync::mpsc::{channel, Receiver, RecvTimeoutError, Sender};
@@ -48,9 +49,9 @@ pub struct DtorObs {
 enum Cmd {
     Set(u8),
     Read,
-    Op(Op),
+    Op(Op, Vec<u16>),
     Resume,
-    Die(Op),
+    Die(Op, Vec<u16>),
     Spawn {
         child: u32,
         api: Api,
@@ -109,6 +110,83 @@ fn arm_probe(id: u32, tx: Sender<Reply>) {
     PROBE.with(|p| p.borrow_mut().armed = Some((id, tx)));
 }
 
+// --- pre-emption at the library's scheduling points (hooks build) ------------
+
+struct YCtl {
+    wanted: Vec<u16>,
+    hits: u16,
+    fired: u16,
+    id: u32,
+    tx: Sender<Reply>,
+    rx: Rc<Receiver<Cmd>>,
+    broken: Option<String>,
+}
+
+thread_local! {
+    static YCTL: RefCell<Option<YCtl>> = RefCell::new(None);
+}
+
+/// Registered with `fpdec_core::verif_hooks::set_hook` in the hooks build;
+/// called by the library, on the thread executing the operation, at each
+/// scheduling point.  Outside a simulated operation it does nothing.
+#[allow(dead_code)]
+pub fn yield_hook(_site: u8) {
+    let _ = YCTL.try_with(|c| {
+        if let Ok(mut g) = c.try_borrow_mut() {
+            if let Some(ctl) = g.as_mut() {
+                ctl.hits += 1;
+                if ctl.wanted.contains(&ctl.hits) {
+                    ctl.fired += 1;
+                    let _ = ctl.tx.send(Reply::Paused(ctl.id, 1000 + ctl.hits));
+                    match ctl.rx.recv() {
+                        Ok(Cmd::Resume) => {}
+                        Ok(_) => {
+                            ctl.broken = Some(
+                                "command other than resume while parked at a scheduling point".into(),
+                            )
+                        }
+                        Err(_) => ctl.broken = Some("runner gone while parked".into()),
+                    }
+                }
+            }
+        }
+    });
+}
+
+pub fn install_hook() {
+    #[cfg(fpdec_verif)]
+    fpdec_core::verif_hooks::set_hook(Some(yield_hook));
+}
+
+pub fn hooks_compiled() -> bool {
+    cfg!(fpdec_verif)
+}
+
+fn yctl_begin(id: u32, yields: Vec<u16>, tx: &Sender<Reply>, rx: &Rc<Receiver<Cmd>>) {
+    if yields.is_empty() {
+        return;
+    }
+    YCTL.with(|c| {
+        *c.borrow_mut() = Some(YCtl {
+            wanted: yields,
+            hits: 0,
+            fired: 0,
+            id,
+            tx: tx.clone(),
+            rx: rx.clone(),
+            broken: None,
+        })
+    });
+}
+
+/// Returns (pre-emptions fired, scheduling points passed, harness problem).
+fn yctl_end() -> (u16, u16, Option<String>) {
+    YCTL.with(|c| match c.borrow_mut().take() {
+        Some(ctl) => (ctl.fired, ctl.hits, ctl.broken),
+        None => (0, 0, None),
+    })
+}
+
 // --- a simulated thread ------------------------------------------------------
 
 fn sim_thread_main(
@@ -117,6 +195,7 @@ fn sim_thread_main(
     tx: Sender<Reply>,
     probe_early: bool,
 ) {
+    let rx = Rc::new(rx);
     if probe_early {
         arm_probe(id, tx.clone());
     }
@@ -155,20 +234,34 @@ fn sim_thread_main(
                 };
                 let _ = tx.send(Reply::Done(id, o, SinkInfo::default()));
             }
-            Cmd::Op(op) => {
+            Cmd::Op(op, yields) => {
                 let mut info = SinkInfo::default();
+                yctl_begin(id, yields, &tx, &rx);
                 let o = exec_caught(&op, &mut pause, &mut info);
+                let (yf, yh, ybroken) = yctl_end();
+                info.ypaused = yf;
+                info.yhits = yh;
+                if let Some(msg) = ybroken {
+                    broken.set(Some(msg));
+                }
                 if let Some(msg) = broken.take() {
                     let _ = tx.send(Reply::Harness(id, msg));
                     return;
                 }
                 let _ = tx.send(Reply::Done(id, o, info));
             }
-            Cmd::Die(op) => {
+            Cmd::Die(op, yields) => {
                 let mut info = SinkInfo::default();
+                yctl_begin(id, yields, &tx, &rx);
                 let r = catch_unwind(AssertUnwindSafe(|| {
                     exec(&op, &mut pause, &mut info)
                 }));
+                let (yf, yh, ybroken) = yctl_end();
+                info.ypaused = yf;
+                info.yhits = yh;
+                if let Some(msg) = ybroken {
+                    broken.set(Some(msg));
+                }
                 if let Some(msg) = broken.take() {
                     let _ = tx.send(Reply::Harness(id, msg));
                     return;
@@ -216,8 +309,10 @@ fn spawn_sim_thread(
     let body = move || sim_thread_main(id, rx, reply, probe_early);
     match api {
         Api::Std => Ok(std::thread::spawn(body)),
+        // names from a tiny pool, so that several live threads share a name
+        // (per-thread state must not be keyed by it)
         Api::Builder => std::thread::Builder::new()
-            .name(format!("sim-T{}", id))
+            .name(["worker", "pool-0", "pool-1"][(id % 3) as usize].to_string())
             .stack_size(512 * 1024)
             .spawn(body)
             .map_err(|e| e.to_string()),
@@ -265,6 +360,9 @@ pub struct Event {
     pub sink: SinkInfo,
     /// a foreign `set` happened while this op was parked in the sink
     pub foreign_set_in_flight: bool,
+    /// another thread executed a rounding operation while this one was parked
+    /// in the middle of its own
+    pub foreign_op_in_flight: bool,
 }
 
 #[derive(Clone, Debug)]
@@ -292,6 +390,7 @@ pub struct RunResult {
     pub respawn_after_death: u32,
     pub dtor_expected: u32,
     pub dtor_missing: u32,
+    pub churned: u32,
 }
 
 struct Pending {
@@ -304,6 +403,8 @@ struct Pending {
     inherit_mode: Option<u8>,
     global_last: Option<u8>,
     foreign_set: bool,
+    foreign_op: bool,
+    yields: Vec<u16>,
 }
 
 struct Th {
@@ -331,6 +432,7 @@ pub struct Runner {
     watchdog: Duration,
     /// T0 is the main thread, executed inline by the runner
     main_root: bool,
+    churn_counter: u32,
 }
 
 pub const WATCHDOG_SECS: u64 = 30;
@@ -351,6 +453,7 @@ impl Runner {
             seq: 0,
             watchdog: Duration::from_secs(WATCHDOG_SECS),
             main_root: false,
+            churn_counter: 0,
         }
     }
 
@@ -403,6 +506,7 @@ impl Runner {
             global_last: self.global_last,
             sink: SinkInfo::default(),
             foreign_set_in_flight: false,
+            foreign_op_in_flight: false,
         }
     }
 
@@ -676,8 +780,9 @@ impl Runner {
             global_last: p.global_last,
             sink: info,
             foreign_set_in_flight: p.foreign_set,
+            foreign_op_in_flight: p.foreign_op,
         };
-        let _ = p.step;
+        let _ = (&p.step, &p.yields);
         let n = info.n_reent as usize;
         let seen: Vec<u8> = info.reent_modes[..n].to_vec();
         let model = e.model_mode;
@@ -892,7 +997,22 @@ impl Runner {
         }
     }
 
-    fn start_op(&mut self, step: u32, tid: u32, op: &Op, die: bool) -> HResult<()> {
+    fn start_op(
+        &mut self,
+        step: u32,
+        tid: u32,
+        op: &Op,
+        die: bool,
+        yields: &[u16],
+    ) -> HResult<()> {
+        // every operation that is parked mid-way right now sees a foreign op
+        for (t2, th2) in self.threads.iter_mut() {
+            if *t2 != tid {
+                if let Some(p2) = th2.pending.as_mut() {
+                    p2.foreign_op = true;
+                }
+            }
+        }
         let p = {
             let th = &self.threads[&tid];
             Pending {
@@ -905,6 +1025,8 @@ impl Runner {
                 inherit_mode: th.inherit_mode,
                 global_last: self.global_last,
                 foreign_set: false,
+                foreign_op: false,
+                yields: yields.to_vec(),
             }
         };
         if self.threads[&tid].tx.is_none() {
@@ -922,8 +1044,38 @@ impl Runner {
             return Ok(());
         }
         self.threads.get_mut(&tid).unwrap().pending = Some(p);
-        let cmd = if die { Cmd::Die(op.clone()) } else { Cmd::Op(op.clone()) };
+        let y = yields.to_vec();
+        let cmd = if die { Cmd::Die(op.clone(), y) } else { Cmd::Op(op.clone(), y) };
         self.drive_op(step, tid, cmd)
+    }
+
+    /// `n` short-lived threads spawned by `tid`, one after another.
+    fn do_churn(&mut self, step: u32, tid: u32, n: u16, m: u8) -> HResult<()> {
+        for i in 0..n {
+            if self.res.blocked || !self.threads.contains_key(&tid) {
+                break;
+            }
+            self.churn_counter += 1;
+            let child = 1_000_000 + self.churn_counter;
+            self.do_spawn(step, tid, child, Api::Std, false)?;
+            if !self.threads.contains_key(&child) {
+                break;
+            }
+            self.do_simple(step, child, Some((m as u16 + i) as u8 % 8))?;
+            if self.res.blocked {
+                break;
+            }
+            self.do_simple(step, child, None)?;
+            if self.res.blocked {
+                break;
+            }
+            self.do_exit(step, child, false)?;
+        }
+        self.res.churned += n as u32;
+        if !self.res.blocked && self.threads.contains_key(&tid) {
+            self.do_simple(step, tid, None)?;
+        }
+        Ok(())
     }
 
     fn sweep(&mut self, step: u32) -> HResult<()> {
@@ -942,7 +1094,13 @@ impl Runner {
         Ok(())
     }
 
-    fn step(&mut self, ix: u32, tid: u32, action: &Action) -> HResult<()> {
+    fn step(
+        &mut self,
+        ix: u32,
+        tid: u32,
+        action: &Action,
+        yields: &[u16],
+    ) -> HResult<()> {
         if let Action::Sweep = action {
             return self.sweep(ix);
         }
@@ -971,15 +1129,16 @@ impl Runner {
             }
             Action::Set(m) => self.do_simple(ix, tid, Some(*m)),
             Action::Read => self.do_simple(ix, tid, None),
-            Action::Op(op) => self.start_op(ix, tid, op, false),
+            Action::Op(op) => self.start_op(ix, tid, op, false, yields),
             Action::Die(_) | Action::Exit { .. }
                 if self.main_root && tid == 0 =>
             {
                 self.skip(ix, tid, "the main thread does not end");
                 Ok(())
             }
-            Action::Die(op) => self.start_op(ix, tid, op, true),
+            Action::Die(op) => self.start_op(ix, tid, op, true, yields),
             Action::Exit { probe_late } => self.do_exit(ix, tid, *probe_late),
+            Action::Churn { n, m } => self.do_churn(ix, tid, *n, *m),
             Action::Sweep => unreachable!(),
         }
     }
@@ -992,7 +1151,7 @@ impl Runner {
             if self.res.blocked {
                 break;
             }
-            self.step(ix as u32, st.tid, &st.action)?;
+            self.step(ix as u32, st.tid, &st.action, &st.yields)?;
             // cross-invariant: the model and the set of OS threads we hold
             // handles for are the same set
             if self.threads.iter().any(|(id, t)| {
@@ -1085,6 +1244,9 @@ pub fn kind_text(k: &EvKind) -> String {
         EvKind::Set(m) => format!("set {}", MODE_NAMES[*m as usize]),
         EvKind::Read => "read".into(),
         EvKind::Op(op) => format!("op {}", op.to_text()),
+        EvKind::Paused(k) if *k >= 1000 => {
+            format!("parked-at-scheduling-point #{}", k - 1000)
+        }
         EvKind::Paused(k) => format!("parked-in-sink write#{}", k),
         EvKind::Die(op) => format!("die {}", op.to_text()),
         EvKind::Exit => "exit".into(),
